@@ -6,13 +6,13 @@ namespace G3d
 def f64NextUp (v : Float) : Float :=
   if v.isInf && v > 0 then v else
   let ui := v.toBits
-  if ui == 0x8000000000000000 then 0.0 else
+  let ui := if ui == 0x8000000000000000 then 0 else ui
   if v >= 0 then Float.ofBits (ui + 1) else Float.ofBits (ui - 1)
 
 def f64NextDown (v : Float) : Float :=
   if v.isInf && v < 0 then v else
   let ui := v.toBits
-  if ui == 0 then 0.0 else
+  let ui := if ui == 0 then 0x8000000000000000 else ui
   if v > 0 then Float.ofBits (ui - 1) else Float.ofBits (ui + 1)
 
 def f64Pi : Float := Float.ofBits 0x400921FB54442D18
@@ -42,13 +42,13 @@ instance : Num Float where
 def f32NextUp (v : Float32) : Float32 :=
   if v.isInf && v > 0 then v else
   let ui := v.toBits
-  if ui == 0x80000000 then 0.0 else
+  let ui := if ui == 0x80000000 then 0 else ui
   if v >= 0 then Float32.ofBits (ui + 1) else Float32.ofBits (ui - 1)
 
 def f32NextDown (v : Float32) : Float32 :=
   if v.isInf && v < 0 then v else
   let ui := v.toBits
-  if ui == 0 then 0.0 else
+  let ui := if ui == 0 then 0x80000000 else ui
   if v > 0 then Float32.ofBits (ui - 1) else Float32.ofBits (ui + 1)
 
 def f32Pi : Float32 := Float32.ofBits 0x40490FDB
